@@ -57,6 +57,8 @@ def build(ctx):
         ctx.forwards = getattr(ctx, 'forwards', []) + [(src, dst)]
     if not hasattr(ctx, 'forwards'):
         ctx.forwards = []
+    for (bus, pattern, name, script, *opt) in cfg.get('late_handlers', []):
+        _register(ctx, bus, pattern, name, script, opt[0] if opt else {})
 
 
 def _val(ctx, x):
@@ -147,6 +149,9 @@ async def _run_script(ctx, inv, ev, script):
                     pass
                 else:
                     raise
+        elif op == 'disp_explicit':
+            _, bus, cls, label, pid = st
+            inv.dispatch(ctx.buses[bus], _mk_event(ctx, cls, label, event_parent_id=pid))
         elif op == 'await':
             lab = _label(ctx, inv, st[1])
             await inv.wait(ctx.events[lab])
